@@ -76,6 +76,12 @@ Definition wsum1 (w x : list T) : T := sumf (vmul w (map nabs x)).   (* |x|.inne
    Closed-form factories (proximal_operators.py).  [g : option (list T)] is the
    optional translation / prior argument.
    ========================================================================== *)
+Fixpoint vmap3 (f : T -> T -> T -> T) (x y z : list T) : list T :=
+  match x, y, z with
+  | a :: x', b :: y', c :: z' => f a b c :: vmap3 f x' y' z'
+  | _, _, _ => []
+  end.
+
 Definition gsub (x : list T) (g : option (list T)) : list T :=
   match g with Some g => vsub x g | None => x end.
 
@@ -92,6 +98,10 @@ Definition prox_cc_l1 (lam : T) (g : option (list T)) (s : T) (x : list T) : lis
   let diff := match g with Some g => vlin none_ x (- s) g | None => x end in
   map (fun d => d / (nmax (nabs d) lam / lam)) diff.
 
+(* ... with an element-valued step and g (after fix ff778b2): diff = x - sigma .* g *)
+Definition prox_cc_l1v (lam : T) (g : list T) (sv : list T) (x : list T) : list T :=
+  map (fun d => d / (nmax (nabs d) lam / lam)) (vmap3 (fun a gi si => a - si * gi) x g sv).
+
 (* proximal_l2(space, lam, g)(sigma): block soft threshold in the space norm *)
 Definition prox_l2 (w : list T) (lam : T) (g : option (list T)) (s : T) (x : list T) : list T :=
   let xn := wnorm w (gsub x g) in
@@ -103,12 +113,6 @@ Definition prox_l2 (w : list T) (lam : T) (g : option (list T)) (s : T) (x : lis
     | Some g => vlin (none_ - step) x step g
     end
   else match g with None => map (fun _ => nzero) x | Some g => g end.
-
-Fixpoint vmap3 (f : T -> T -> T -> T) (x y z : list T) : list T :=
-  match x, y, z with
-  | a :: x', b :: y', c :: z' => f a b c :: vmap3 f x' y' z'
-  | _, _, _ => []
-  end.
 
 (* proximal_l2_squared(space, lam, g)(sigma); sigma scalar or element.
    scalar: x/(1+2 s lam) + (2 s lam/(1+2 s lam)) g ; element: (x + s*2*lam*g)/(1+2 s lam) *)
@@ -136,10 +140,12 @@ Definition prox_box (lo hi : bound) (x : list T) : list T :=
   let y := match bvec n lo with Some l => vmap2 nmax x l | None => x end in
   match bvec n hi with Some h => vmap2 nmin y h | None => y end.
 
-(* proximal_huber(space, gamma)(sigma) on a non-product space *)
+(* proximal_huber(space, gamma)(sigma) on a non-product space (after fix bec7266):
+   x * factor,  factor = gamma/(gamma+sigma) where |x| <= gamma+sigma, else 1 - sigma/|x| *)
+Definition huber_factor (gamma s nrm : T) : T :=
+  if nleb nrm (gamma + s) then gamma / (gamma + s) else none_ - s / nrm.
 Definition prox_huber (gamma : T) (s : T) (x : list T) : list T :=
-  map (fun a => if nleb (nabs a) (gamma + s) then gamma / (gamma + s) * a
-                else a - s * nsign a) x.
+  map (fun a => a * huber_factor gamma s (nabs a)) x.
 
 (* proj_simplex(x, diameter): sort descending, running averages, last index
    with x_sor[j] - avg[j] >= 0, then max(x - avg[i], 0) *)
@@ -199,6 +205,15 @@ Definition prox_cc_l1_l2 (m d : nat) (lam : T) (g : option (list T)) (s : T) (x 
   let diff := match g with Some g => vlin none_ x (- s) g | None => x end in
   let denom := map (fun a => nmax a lam / lam) (pw_norm m d diff) in
   concat (map (fun c => vdiv c denom) (chunks m d diff)).
+
+(* proximal_huber on a vector field X^d (after fix bec7266): every component times the pointwise factor *)
+Definition prox_huber_g (m d : nat) (gamma s : T) (x : list T) : list T :=
+  let factor := map (huber_factor gamma s) (pw_norm m d x) in
+  concat (map (fun c => vmul c factor) (chunks m d x)).
+
+(* IndicatorSumConstraint.proximal (after fix c7fdd8d): x + (sum_value - sum x)/size *)
+Definition prox_sumc (c : T) (x : list T) : list T :=
+  let off := none_ / of_Z (Z.of_nat (length x)) * (c - sumf x) in map (fun a => a + off) x.
 
 (* ============================================================================
    Calculus rules on prox factories (factory = step -> point -> result)
@@ -272,7 +287,9 @@ Inductive leaf :=
 | FHuber (gamma : T)          (* Huber on a non-product space *)
 | FSimplex (diam : T)         (* IndicatorSimplex *)
 | FGroupL1 (m d : nat) (two : bool)      (* GroupL1Norm(X^d, exponent 2 | 1) *)
-| FGroupBall (m d : nat) (two : bool).   (* IndicatorGroupL1UnitBall(X^d, exponent 2 | inf) *)
+| FGroupBall (m d : nat) (two : bool)    (* IndicatorGroupL1UnitBall(X^d, exponent 2 | inf) *)
+| FHuberG (m d : nat) (gamma : T)        (* Huber on a vector field X^d *)
+| FSumC (c : T).                         (* IndicatorSumConstraint(sum_value = c) *)
 
 Definition needs_scalar (s : sig) (k : T -> res (list T)) : res (list T) :=
   match s with SScal sg => k sg | _ => Err EType end.
@@ -307,6 +324,8 @@ Definition leaf_val (k : leaf) (w x : list T) : ext :=
       Some (if two then sumf (vmul (firstn m w) (pw_norm m d x)) else wsum1 w x)
   | FGroupBall m d two =>
       ind (if two then forallb (fun a => nleb a none_) (pw_normsq m d x) else nleb (vmaxabs x) none_)
+  | FHuberG m d gamma => Some (sumf (vmul (firstn m w) (map (huber1 gamma) (pw_norm m d x))))
+  | FSumC c => ind (neqb (sumf x) c)
   end.
 
 (* f.proximal(sigma)(x): the binding of each functional class to its factory *)
@@ -332,6 +351,8 @@ Definition leaf_prox (k : leaf) (w : list T) (s : sig) (x : list T) : res (list 
   | FGroupBall m d two =>
       needs_scalar s (fun sg => Ok (if two then prox_cc_l1_l2 m d none_ None sg x
                                     else prox_cc_l1 none_ None sg x))
+  | FHuberG m d gamma => needs_scalar s (fun sg => Ok (prox_huber_g m d gamma sg x))
+  | FSumC c => Ok (prox_sumc c x)
   end.
 
 (* functional expression trees (functional.py + SeparableSum) *)
